@@ -48,6 +48,10 @@ def gen_cases(rng, tier):
             if op in ('apply_gso1', 'apply_gso1_col') and norb > 8:
                 continue
             cases.append({'kind': 'kern', 'norb': norb, 'na': na, 'nb': nb, 'op': op, 'seed': rng.randrange(10 ** 6)})
+    # the low-filling kernels of the dense apply (c10.py: reached by setting FqeData._low_thresh): smallest and odd shapes
+    for norb, na, nb in [(4, 1, 1), (4, 1, 0), (7, 2, 2), (7, 2, 0), (7, 0, 1), (8, 2, 1)] + ([] if tier == 'quick' else [(11, 3, 3), (12, 3, 1), (5, 0, 1)]):
+        for op in ('apply_r2_low', 'apply_g2_low'):
+            cases.append({'kind': 'kern', 'norb': norb, 'na': na, 'nb': nb, 'op': op, 'seed': rng.randrange(10 ** 6)})
     return cases
 
 
